@@ -150,6 +150,14 @@ func (p Params) Validate() error {
 		return err
 	}
 
+	// a phase shorter than one block can never be the current phase of any block but the first one,
+	// where it makes the block provisions divide by zero
+	for i := range p.Phases {
+		if p.getPhaseBlocks(i + 1).LT(sdkmath.LegacyOneDec()) {
+			return fmt.Errorf(ErrTextPhaseShorterThanOneBlock, p.Phases[i].YearCoefficient, p.BlocksPerYear)
+		}
+	}
+
 	return validateExcludeAmount(p.ExcludeAmount)
 }
 
@@ -278,6 +286,9 @@ func validatePhases(i interface{}) error {
 	for _, p := range v {
 		if !p.YearCoefficient.GT(sdkmath.LegacyZeroDec()) {
 			return fmt.Errorf(ErrTextYearCoefficientMustBePositive, p.YearCoefficient)
+		}
+		if p.Inflation.IsNegative() {
+			return fmt.Errorf(ErrTextMintParamInflationShouldBePositive, p.Inflation)
 		}
 		if IsEndPhase(p) {
 			return fmt.Errorf(ErrTextEndPhaseParamNotAllowed, p.Inflation)
